@@ -20,8 +20,14 @@
 #include "fileio/file.h"
 
 extern "C" { unsigned g_pc; int g_pc_known; int g_reset_calls; int g_break_io_seen; unsigned g_load_addr; int g_loaded; int g_prompted; }
-static const char *const g_vocab[] = { "-set_pc", "-address", "-break_io", "-bin", "-disasm_range", "-msp430", "0x1234", "77", "a.hex" };
+#ifdef LASTOPT
+/* second form: the command line ends in an option that takes a value (its value is missing) */
+static const char *const g_vocab[] = { "-set_pc", "-address", "-break_io", "-disasm_range", "-sim_serial", "a.hex" };
+#define NVOCAB 6
+#else
+static const char *const g_vocab[] = { "-set_pc", "-address", "-break_io", "-bin", "-msp430", "-zz", "0x1234", "77", "a.hex" };
 #define NVOCAB 9
+#endif
 /* --- contracts of what main() calls --- */
 Memory::Memory() {} Memory::~Memory() {}
 Symbols::Symbols() {} Symbols::~Symbols() {}
@@ -78,7 +84,7 @@ void Memory::write8(uint32_t a, uint8_t d) {}
 void tokens_close(AsmContext *) {}
 void tokens_reset(AsmContext *) {}
 extern "C" {
-void exit(int code) { ASSUME(0); }
+void exit(int code) { CANARY("exit() reachable"); ASSUME(0); }
 char *fgets(char *s, int n, FILE *f) { g_prompted = 1; return 0; }          /* end of input at the first prompt */
 int fflush(FILE *f) { return 0; }
 long strtol(const char *s, char **end, int base) { OBL(s != 0, "C17.cli: a numeric option value is present (argv[argc] is not used)"); return (s != 0 && s[0] == '0') ? 0x1234 : 77; }
@@ -95,11 +101,18 @@ extern "C" void h_utilmain()
 {
   static Simulate sim(&g_mem); g_sim = &sim;
   int argc = nondet_int(); ASSUME(argc >= 2 && argc <= 4);
+#ifdef LASTOPT
+  ASSUME(argc <= 3);
+#endif
   char *argv[7];
   int pick[6];
   for (int i = 0; i < 6; i++)
   {
     pick[i] = nondet_int(); ASSUME(pick[i] >= 0 && pick[i] < NVOCAB);
+#ifdef LASTOPT
+    if (i == argc - 1) ASSUME(pick[i] < 5);        /* the last word is an option that needs a value */
+    else ASSUME(pick[i] == 5);                      /* before it: file names */
+#endif
     argv[i] = (i < argc) ? (char *)&g_vocab[pick[i]][0] : (char *)0;
   }
   argv[6] = 0;
@@ -112,12 +125,18 @@ extern "C" void h_utilmain()
   {
     int p = pick[k];
     if (p == 0 && k + 1 < argc) { want_pc = 1; pc_val = (pick[k + 1] == 6) ? 0x1234 : 77; k += 2; }
-    else if ((p == 1 || p == 2 || p == 4) && k + 1 < argc) { k += 2; }
+    else if ((p == 1 || p == 2) && k + 1 < argc) { k += 2; }
     else k += 1;
   }
+#ifndef LASTOPT
   if (g_prompted && want_pc)
     OBL(g_pc_known && g_pc == pc_val, "C19.cli: with -set_pc A the program counter at the first prompt is A (nothing resets it afterwards)");
   if (g_prompted) OBL(g_reset_calls >= 1, "C19.cli: the simulator is reset before the first prompt");
+#else
+  OBL(!g_prompted, "C17.cli: a command line that ends in an option without its value is rejected");
+#endif
   (void)r;
+#ifndef LASTOPT
   CANARY("h_utilmain end");
+#endif
 }
